@@ -73,6 +73,8 @@ Act(e) == LET a == e.args IN
      [] e.ev = "Finalise"   -> Finalise
      [] e.ev = "Root"       -> Root /\ DumpMatches(e.live, acc', val', wq', rec', rel')
      [] e.ev = "Commit"     -> Commit /\ DumpMatches(e.live, acc', val', wq', rec', rel')
+     [] e.ev = "Reload" /\ "blind" \in DOMAIN e -> Reload /\ DumpMatches(e.re, acc', val', wq', rec', rel')
+     [] e.ev = "CopySwap" /\ "blind" \in DOMAIN e -> CopyStep("CopySwap")
      [] e.ev = "Reload"     -> Reload /\ DumpMatches(e.live, acc', val', wq', rec', rel')
      [] e.ev = "Copy"       -> CopyStep("Copy") /\ DumpMatches(e.orig, acc, val, wq, rec, rel) /\ (copyOk' <=> e.copy = e.orig)
      [] e.ev = "CopySwap"   -> CopyStep("CopySwap") /\ DumpMatches(e.orig, acc, val, wq, rec, rel) /\ (copyOk' <=> e.copy = e.orig)
